@@ -75,6 +75,12 @@ def gen_targets(t, rng, n):
             depth = d.count("/")
             for extra in (0, 1, 2, 3):
                 out.append(d + "/" + "../" * (depth + extra) + name)
+        # directories whose names contain URL delimiters: where the path ends is decided twice (containment check, file lookup)
+        for d in [x for x in dirs if any(ch in x for ch in "#?%&;=")]:
+            depth = d.count("/")
+            for extra in (1, 2, 3):
+                for suffix in ("", "?v=1", "#f", "?v=1#f", "#f?v=1"):
+                    out.append(d + "/" + "../" * (depth + extra) + name + suffix)
         for g in GLUE:
             out.append("/" + g + name)
             out.append("/" + g + g + name)
@@ -178,7 +184,7 @@ def run(c):
         srv = None
         try:
             # directories that often get special treatment (exemptions for ACME challenges, hidden files, VCS data ...)
-            for special in ("/.well-known", "/.well-known/acme-challenge", "/.git", "/.hidden", "/static", "/assets", "/cgi-bin"):
+            for special in ("/.well-known", "/.well-known/acme-challenge", "/.git", "/.hidden", "/static", "/assets", "/cgi-bin", "/C#", "/q?x", "/p%41", "/a&b", "/semi;c", "/eq=e", "/C#/in#ner"):
                 if special not in t.dirs:
                     t.add_dir(special)
                     mk = treegen.marker("MK", "c01-%d" % ti, special)
